@@ -89,7 +89,9 @@ impl EventGen for DefaultsElement {
         &self,
         context: &mut TransformerContext,
     ) -> Result<(OutputList, Option<BoundingBox>)> {
-        for ev in self.0.inner_events(context).unwrap_or_default() {
+        let inner_events = self.0.inner_events(context).unwrap_or_default();
+        context.check_content_depth(&inner_events.events)?;
+        for ev in inner_events {
             // we only care about Element-generating (i.e. start/empty) events
             if let Ok(el) = SvgElement::try_from(ev.clone()) {
                 context.set_element_default(&el);
@@ -312,6 +314,10 @@ impl EventGen for Container {
                     && new_el.get_attr("xmlns").as_deref() == Some("http://www.w3.org/2000/svg")
                 {
                     let raw = self.0.all_events(context);
+                    // (its content is nested in it, passed through or not)
+                    if let [_, content @ .., _] = raw.events.as_slice() {
+                        context.check_content_depth(content)?;
+                    }
                     register_raw_elements(&raw, context);
                     return Ok((raw.into_raw_output(), None));
                 }
